@@ -319,7 +319,7 @@ IsOpDesc(x) ==
   \/ \E d \in OpDialects, h \in HeaderIdx \ {None3} : x = MkOp("header", d, None3, None3, h, None3, None3, Cfg0)
   \/ \E d \in OpDialects \cap D3, c \in CookieIdx \ {None3} : x = MkOp("cookie", d, None3, None3, None3, c, None3, Cfg0)
   \/ \E d \in OpDialects, b \in BodyIdxSet \ {None3} : x = MkOp("body", d, None3, None3, None3, None3, b, Cfg0)
-  \/ \E d \in OpDialects, q \in {q \in QueryIdx : q[1] # 0 /\ q[3] = 0 /\ q[2] \in PairLeaves}, b \in {b \in BodyIdxSet : b[1] = 2 /\ b[3] = 0 /\ (Rich \/ b[2] \in {1, 2, 4, 12})} :
+  \/ \E d \in OpDialects, q \in {q \in QueryIdx : q[1] # 0 /\ q[3] = 0 /\ q[2] \in PairLeaves}, b \in {b \in BodyIdxSet : b[1] = 2 /\ b[3] = 0 /\ (Rich \/ b[2] \in {1, 4, 12, 15})} :
         x = MkOp("query+body", d, q, None3, None3, None3, b, Cfg0)
   \/ \E d \in OpDialects, p \in {p \in PathIdx : p[1] # 0 /\ p[3] = 0}, h \in {h \in HeaderIdx : h[1] # 0 /\ h[3] = 0 /\ h[2] \in {1, 2, 6, 13} /\ (Rich \/ h[1] = 2)} :
         x = MkOp("path+header", d, None3, p, h, None3, None3, Cfg0)
